@@ -101,7 +101,10 @@ def jobs(pid, tier):
     if pid == 'C18':
         return [seq('C18')]
     if pid == 'C19':
-        return [seq('C19')]
+        if q:
+            return [seq('C19'), vrt('C19', [r'mtsafe_t2_.*', r'mtsafe_t3_r1_.*'], bound=2, workers=4, race_oracle=True)]
+        return [seq('C19'), vrt('C19', [r'mtsafe_t2_.*'], unbounded=True, workers=4, race_oracle=True),
+                vrt('C19', [r'mtsafe_t3_.*'], bound=3, workers=8, race_oracle=True)]
     if pid == 'C20':
         return [seq('C20')]
     if pid == 'C10':
